@@ -347,6 +347,36 @@ pub fn locations_of(db: &RootDatabase, main: &[CrateInput]) -> String {
     out.into_iter().map(|(k, v)| format!("{k} => {}", v.join(" | "))).collect::<Vec<_>>().join("\n")
 }
 
+/// ABI, entry points and a hash of the Sierra program of every contract of the main crates
+/// (`cairo_lang_starknet::compile::compile_prepared_db`, ids replaced); empty when there is none.
+pub fn contract_classes_of(db: &RootDatabase, main: &[CrateInput]) -> String {
+    let ids = CrateInput::into_crate_ids(db, main.to_vec());
+    let contracts = cairo_lang_starknet::contract::find_contracts(db, &ids);
+    if contracts.is_empty() {
+        return String::new();
+    }
+    let mut diags = String::new();
+    let cfg = cairo_lang_compiler::CompilerConfig {
+        replace_ids: true,
+        diagnostics_reporter: DiagnosticsReporter::write_to_string(&mut diags).with_crates(main).allow_warnings(),
+        ..Default::default()
+    };
+    let refs: Vec<_> = contracts.iter().collect();
+    let mut out = String::from("\n=== contract classes ===\n");
+    match cairo_lang_starknet::compile::compile_prepared_db(db, &refs, cfg) {
+        Ok(classes) => {
+            for (i, c) in classes.iter().enumerate() {
+                let abi = serde_json::to_string(&c.abi).unwrap_or_else(|e| format!("ERR {e}"));
+                let eps = serde_json::to_string(&c.entry_points_by_type).unwrap_or_else(|e| format!("ERR {e}"));
+                let program = serde_json::to_string(&c.sierra_program).unwrap_or_default();
+                out.push_str(&format!("contract {i}\nabi {abi}\nentry_points {eps}\nsierra_program_hash {:016x}\n", simcore::fnv64(program.as_bytes())));
+            }
+        }
+        Err(e) => out.push_str(&format!("ERR {e}\n")),
+    }
+    out
+}
+
 /// `root`: the project directory, replaced by `<ROOT>` in the text so that observations made in
 /// different scratch directories are comparable.
 pub fn observe_in(db: &RootDatabase, main: &[CrateInput], root: &Path) -> Result<Obs, String> {
@@ -361,7 +391,13 @@ pub fn observe_in(db: &RootDatabase, main: &[CrateInput], root: &Path) -> Result
 pub fn observe(db: &RootDatabase, main: &[CrateInput]) -> Result<Obs, String> {
     std::panic::catch_unwind(AssertUnwindSafe(|| {
         let (diagnostics, has_errors) = diagnostics_of(db, main);
-        let sierra = if has_errors { "(not compiled: diagnostics have errors)".to_string() } else { sierra_of(db, main) };
+        let mut sierra = if has_errors { "(not compiled: diagnostics have errors)".to_string() } else { sierra_of(db, main) };
+        if !has_errors {
+            // For a Starknet project "the generated Sierra" is the contract class: its ABI and entry
+            // points are generated from plugin aux data, which a stale memo would not show in the
+            // crate's Sierra program alone.
+            sierra.push_str(&contract_classes_of(db, main));
+        }
         let locations = locations_of(db, main);
         Obs { diagnostics, sierra, locations }
     }))
